@@ -690,6 +690,20 @@ Definition spec_unzip (t : ty) (vs : list value) : res value :=
   | ks => rmap VTup (mapM (fun k => rmap VList (mapM (proj_v k t) vs)) ks)
   end.
 
+(* field number [i] of every record of a zipped value, value-directed (lists and None are passed through) *)
+Fixpoint pick_field (i : Z) (fuel : nat) (v : value) {struct fuel} : res value :=
+  match fuel with
+  | O => Err EFuel
+  | S f =>
+      match v with
+      | VRec fs => do kv <- get fs i; Ok (snd kv)
+      | VTup xs => get xs i
+      | VList l => rmap VList (mapM (pick_field i f) l)
+      | VNone => Ok VNone
+      | _ => Err EValue
+      end
+  end.
+
 (* unzip(zip(...)) as a composite, checked against the implementation *)
 Definition spec_unzip_zip (depth_limit : option Z) (fields : option (list name)) (arrs : list arr) : res value :=
   do z <- spec_zip depth_limit fields arrs;
@@ -698,20 +712,8 @@ Definition spec_unzip_zip (depth_limit : option Z) (fields : option (list name))
       let ks := match fields with Some ks => ks | None => map digit_name (iota (zlen arrs)) end in
       match ks with
       | [] => unspecified
-      | _ => (* project every field out of the zipped values, value-directed *)
-          let fix pr (i : Z) (fuel : nat) (v : value) : res value :=
-            match fuel with
-            | O => Err EFuel
-            | S f =>
-                match v with
-                | VRec fs => do kv <- get fs i; Ok (snd kv)
-                | VTup xs => get xs i
-                | VList l => rmap VList (mapM (pr i f) l)
-                | VNone => Ok VNone
-                | _ => Err EValue
-                end
-            end in
-          rmap VTup (mapM (fun i => rmap VList (mapM (pr i (bc_fuel (map fst arrs))) rows)) (iota (zlen ks)))
+      | _ =>
+          rmap VTup (mapM (fun i => rmap VList (mapM (pick_field i (bc_fuel (map fst arrs))) rows)) (iota (zlen ks)))
       end
   | _ => Err EValue
   end.
